@@ -14,7 +14,7 @@ ASSUMPTIONS = ["'bounded time' is judged with a generous virtual-time budget (TF
 RULE = ("send histories mixing the four modes, an arbitrary finite fault prefix (loss/dup/reorder of data, ack and sync frames in both directions, pauses), then a fair loss-free "
         "suffix until quiescence; all window sizes and initial ids. Oracle: on each channel no packet is delivered while an earlier Reliable packet of that channel is undelivered; "
         "at quiescence every Reliable packet was delivered exactly once, is_send_pending() is false and send_buffer_size() is 0; quiescence is reached within the budget. "
-        "Non-trivial: a Reliable packet had to be resent. Distinct by (windows, faults, volume). Round-6 family: a Reliable packet of 33-70 fragments, single fragments lost on first transmission.")
+        "Non-trivial: a Reliable packet had to be resent. Distinct by (windows, faults, volume). Round-6 family: a Reliable packet of 33-70 fragments, single fragments lost on first transmission. Round-7 families: frames filled by datagram count (128-400 tiny Reliable packets in one tick, the spill-over frame lost); RTT estimate falling while a Reliable fragment is in its resend back-off (the sync timer fires before the resend is due).")
 
 def streams(rng, tier, ctx):
     n = 24 if tier == "quick" else 500
@@ -28,6 +28,8 @@ def streams(rng, tier, ctx):
                 sim = c01.long_lead_scenario(r, it)
             elif i % 8 == 2:
                 sim = H.big_packet_scenario(r, it, modes=(3,))
+            elif i % 8 == 0:
+                sim = H.count_full_scenario(r, it, modes=(3,)) if i % 16 == 0 else H.rtt_drop_scenario(r, it)
             elif i % 8 == 6:
                 # a Reliable packet that has its sequence id but cannot be sent: the (small) frame window is full of frames that
                 # carried only Unreliable data and were all swallowed by a blackout; the sync timer fires during the blackout and
